@@ -30,6 +30,8 @@ from verifkit import sched, tlc
 from verifkit.util import ForkPool, scratch, write_file
 
 LEVEL = "model_checking"
+# several JVMs run side by side with the forked schedule batches: keep their helper threads few
+JENV = {"JAVA_TOOL_OPTIONS": "-XX:ParallelGCThreads=2 -XX:CICompilerCount=2"}
 
 OPS = ["Conf_ka", "Conf_ka2", "Conf_kb", "TH_A", "TH_NA", "TH_NB", "Bear_LA", "Bear_LB", "Dec_LA_D", "Dec_LB_D",
        "Dec_LA_C1", "Hook_pa_C1", "Hook_pa_C2", "Hook_pb_C1", "Look_pa", "Look_pb"]
@@ -832,7 +834,7 @@ def oracle(d, mixes, rep):
            "ASSUME \\A i \\in DOMAIN Mixes : PrintT(ToJson([i |-> i, out |-> SeqOutcomesOf(Mixes[i])]))\n====\n")
     spec = write_file(d, "MC_ThreadsOracle.tla", mod)
     cfg = write_file(d, "MC_ThreadsOracle.cfg", cfg_text(1, 1, ["Look_pa"], invs=[], view=False))
-    res = tlc.run_tlc(spec, cfg, workers=1)
+    res = tlc.run_tlc(spec, cfg, workers=1, env=JENV)
     rep.tlc(res, "oracle: sequential outcomes of every explored mix")
     out = {}
     for row in res.printed:
@@ -962,11 +964,11 @@ def _run(rep, tier, seed, B, rng, lb, pool, d):
     simcfg2w = write_file(d, "sim2w.cfg", cfg_text(2, 2, OPS, warm=True, invs=["LockSane"]))
     simcfg3 = write_file(d, "sim3.cfg", cfg_text(3, 2, OPS, warm=True, invs=["LockSane"]))
     simcfg1 = write_file(d, "sim1.cfg", cfg_text(1, 1, OPS, invs=["LockSane"], lazy=False))
-    seq_sim = ex.submit(tlc.simulate, "Threads.tla", simcfg1, 96, 60, seed + 3)
-    sims = [("simulate 2x2 all kinds (cold pools)", False, ex.submit(tlc.simulate, "Threads.tla", simcfg2, B["sim"], 150, seed)),
-            ("simulate 2x2 all kinds (warm pools)", True, ex.submit(tlc.simulate, "Threads.tla", simcfg2w, B["sim"], 150, seed + 1)),
-            ("simulate 3x2 all kinds (warm pools)", True, ex.submit(tlc.simulate, "Threads.tla", simcfg3, B["sim3"], 220, seed + 2))]
-    futs = [(label, expect, ex.submit(tlc.run_tlc, "Threads.tla", path, **kw)) for label, path, kw, expect in jobs]
+    seq_sim = ex.submit(tlc.simulate, "Threads.tla", simcfg1, 96, 60, seed + 3, 1800, JENV)
+    sims = [("simulate 2x2 all kinds (cold pools)", False, ex.submit(tlc.simulate, "Threads.tla", simcfg2, B["sim"], 150, seed, 1800, JENV)),
+            ("simulate 2x2 all kinds (warm pools)", True, ex.submit(tlc.simulate, "Threads.tla", simcfg2w, B["sim"], 150, seed + 1, 1800, JENV)),
+            ("simulate 3x2 all kinds (warm pools)", True, ex.submit(tlc.simulate, "Threads.tla", simcfg3, B["sim3"], 220, seed + 2, 1800, JENV))]
+    futs = [(label, expect, ex.submit(tlc.run_tlc, "Threads.tla", path, env=JENV, **kw)) for label, path, kw, expect in jobs]
     # ------------------------------------------------------------------ mixes and their sequential outcomes
     mixes = list(MIX2) + list(MIX3)
     for _ in range(B["extra2"]):
@@ -1306,7 +1308,7 @@ def validate_logs(rep, d, logs, ex):
                     e = dict(e, tid=ti)
                     fh.write(json.dumps(e) + "\n")
         futs.append((b, path, ex.submit(tlc.run_tlc, "trace/ThreadsTrace.tla", "trace/ThreadsTrace.cfg", workers=1,
-                                        env={"TRACE_FILE": path}, heap="2g")))
+                                        env=dict(JENV, TRACE_FILE=path), heap="2g")))
     # the trace specification must bind: one corrupted copy of an accepted execution has to be rejected
     probe = next((lg for lg in logs if any(e["ev"] == "Res" for e in lg)), None)
     selftest = None
@@ -1322,7 +1324,7 @@ def validate_logs(rep, d, logs, ex):
                 for e in lg:
                     fh.write(json.dumps(e) + "\n")
         selftest = ex.submit(tlc.run_tlc, "trace/ThreadsTrace.tla", "trace/ThreadsTrace.cfg", workers=1,
-                             env={"TRACE_FILE": path}, heap="2g")
+                             env=dict(JENV, TRACE_FILE=path), heap="2g")
     nval = 0
     for b, path, fut in futs:
         res = fut.result()
